@@ -50,9 +50,9 @@ func (config *CacheConfig) getChunkConfig() immunityChunkConfig {
 
 	return immunityChunkConfig{
 		cacheName:                   config.Name,
-		maxNumItems:                 config.MaxNumItems / numChunks,
-		maxNumBytes:                 config.MaxNumBytes / numChunks,
-		numItemsToPreemptivelyEvict: config.NumItemsToPreemptivelyEvict / numChunks,
+		maxNumItems:                 core.MaxUint32(config.MaxNumItems/numChunks, 1),
+		maxNumBytes:                 core.MaxUint32(config.MaxNumBytes/numChunks, 1),
+		numItemsToPreemptivelyEvict: core.MaxUint32(config.NumItemsToPreemptivelyEvict/numChunks, 1),
 	}
 }
 
